@@ -136,6 +136,13 @@ def twin(ctx, Model, spec, scripts, opts, a, b, a_label, b_label, case):
     if not state_equal(sa, sb):
         ctx.violation('solve-vs-loop-state', f'solve({kw}, {opts}) and the ordered loop of solve_t end in different states: {sorted(scripted.changed_cells(sa, sb))[:8]}', case)
         return
+    # "with the same options": every hook and pass of solve() received the keyword arguments the single-period loop's did
+    if A.__dict__['v_log'] != B.__dict__['v_log']:
+        la, lb = A.__dict__['v_log'], B.__dict__['v_log']
+        k = next((i for i, (x, y) in enumerate(zip(la, lb)) if x != y), min(len(la), len(lb)))
+        ctx.violation('solve-vs-loop-hook-arguments', f'solve({kw}, {opts}): hook/pass #{k} was {la[k] if k < len(la) else None}; in the ordered loop of solve_t it is {lb[k] if k < len(lb) else None}', case)
+        return
+    ctx.count('hook_logs_compared')
     # order: hooks must have run in span order
     order_a = [x[1] for x in A.__dict__['v_log'] if x[0] == 'before']
     if order_a != sorted(order_a) or (ra[0] == 'ret' and order_a != periods):
@@ -150,6 +157,8 @@ def option_set(rng):
         o['offset'] = rng.choice([-1, 1, -2])
     if rng.random() < 0.05:
         o['min_iter'] = o['max_iter'] + 1
+    if rng.random() < 0.3:
+        o[rng.choice(['note', 'scenario', 'label', 'index', 'name', 'verbose', 'key'])] = rng.choice([7, 'x', None, 0])    # a user keyword: forwarded to every hook and pass
     return o
 
 
@@ -205,6 +214,8 @@ def run_shard(ctx):
                         ra = call(A.solve_period, lab, **opts)
                         rb = call(B.solve_t, i, **opts)
                         ctx.count('solve_period_twins')
+                        if ra == rb and A.__dict__['v_log'] != B.__dict__['v_log']:
+                            ctx.violation('solve-period-hook-arguments', f'solve_period({lab!r}, {opts}) hooks/passes saw {A.__dict__["v_log"][:2]}; solve_t({i}) {B.__dict__["v_log"][:2]}', case)
                         if ra != rb or not state_equal(snapshot(A), snapshot(B)):
                             ctx.violation('solve-period-vs-solve-t', f'solve_period({lab!r}) -> {ra}; solve_t({i}) -> {rb} on {spec.kind}', case)
             # ---- label errors: nothing solved, KeyError ---------------------------------------
@@ -249,6 +260,7 @@ def run_shard(ctx):
                             ctx.count('faults_injected')
                             fault_case(ctx, Model, spec, scripts, opts, q, fault, case)
     HISTORY['other'] = None
+    repeated_labels(ctx, Model)
     empty_span(ctx, Model)
     parser_models(ctx)
 
@@ -299,6 +311,38 @@ def fault_case(ctx, Model, spec, scripts, opts, q, fault, case):
         want = '.' * q + want_q + '.' * (n - q - 1)
         if st != want or list(r[1][2]) != [c == '.' for c in want]:
             ctx.violation('failing-period-status', f'fault {fault} at period {q} under errors={errors}, failures={failures}: statuses {st} flags {r[1][2]}, expected {want}', case)
+
+
+def repeated_labels(ctx, Model):
+    """Spans in which a label occurs twice (NumPy arrays, pandas indexes): naming it as start / end / period does not
+    resolve to a single position -> KeyError before anything is solved; the unique labels still work."""
+    import pandas as pd
+    spans_ = [('ndarray[int] repeated', lambda: np.array([1990, 1991, 1991, 1992, 1993]), 1991, 1992, 3),
+              ('ndarray[str] repeated', lambda: np.array(['a', 'b', 'c', 'b', 'd']), 'b', 'c', 2),
+              ('pd.Index[int] repeated', lambda: pd.Index([5, 6, 6, 7]), 6, 7, 3),
+              ('pd.Index[str] repeated unsorted', lambda: pd.Index(['x', 'y', 'z', 'x']), 'x', 'z', 2),
+              ('pd.PeriodIndex repeated', lambda: pd.PeriodIndex(['2000', '2001', '2001', '2002'], freq='Y'), pd.Period('2001', freq='Y'), pd.Period('2002', freq='Y'), 3)]
+    for k, (kind, make_span, dup, unique, upos) in enumerate(spans_):
+        if not ctx.mine(k):
+            continue
+        for where in ('start', 'end', 'period'):
+            m = Model(make_span(), tol=0.5, X=1.0)
+            m.__dict__['v_scripts_by_t'] = {}
+            before = snapshot(m)
+            case = dict(span_kind=kind, bad_label=repr(dup), where=where)
+            ctx.evaluation(case, nontrivial=True)
+            r = call(m.solve_period, dup, failures='ignore') if where == 'period' else call(m.solve, **{where: dup}, failures='ignore')
+            ctx.count('label_errors_checked')
+            ctx.count('repeated_label_requests')
+            if r[0] != 'exc' or r[1] != 'KeyError':
+                ctx.violation('label-error-class', f'{where}={dup!r} occurs twice in the span ({kind}): expected KeyError, got {r}', case)
+            elif not state_equal(before, snapshot(m)) or m.__dict__['v_log']:
+                ctx.violation('label-error-after-solving', f'{where}={dup!r} raised KeyError after solving something', case)
+        m = Model(make_span(), tol=0.5, X=1.0)
+        m.__dict__['v_scripts_by_t'] = {}
+        r = call(m.solve_period, unique, failures='ignore')
+        if r[0] != 'ret' or [x[1] for x in m.__dict__['v_log'] if x[0] == 'before'] != [upos]:
+            ctx.violation('solve-period-vs-solve-t', f'solve_period({unique!r}) on {kind}: {r}, visited {[x[1] for x in m.__dict__["v_log"] if x[0] == "before"]}, expected position {upos}', dict(span_kind=kind, label=repr(unique)))
 
 
 def empty_span(ctx, Model):
